@@ -5,9 +5,9 @@ import random
 
 from ..gen import queries as G
 from ..gen import docs as D
-from ..oracle import sem
-from .. import mon, shrink
-from ..worker import guard, CaseTimeout, jsonable
+from ..worker import guard, CaseTimeout
+from . import _semdiff as SD
+from ._semdiff import replay  # noqa: F401
 
 PROPERTY = "C01"
 RULE = ("AST-first random filter-free queries (0-4 child/descendant segments, 1-3 selectors incl. repeated/overlapping, "
@@ -18,34 +18,12 @@ ASSUMPTIONS = ["reference evaluator vf/oracle/sem.py transcribes RFC 9535 2.3/2.
                "documents are JSON values as json.load yields them (dict/list/str/int/float/bool/None, string keys)"]
 DECIDING_MONITORS = ["M-find"]
 
-MODEL = sem.Model()
-
 
 def plan(tier, seed, nproc, scale):
-    total = int((60000 if tier == "quick" else 1500000) * scale)
+    total = int((240000 if tier == "quick" else 3000000) * scale)
     shards = nproc if tier == "quick" else nproc * 4
     per = max(1, total // shards)
     return [{"kind": "random", "seed": "%d/%d" % (seed, i), "n": per} for i in range(shards)]
-
-
-def check_case(jp, text, q, doc, rec, via):
-    want = mon.want_sig(MODEL.find(q, doc))
-    if via == "find":
-        o = mon.observe(jp.find, text, doc)
-        got = mon.sig(o[1]) if o[0] == "ok" else None
-    else:
-        o = mon.observe(lambda: list(jp.compile(text).finditer(doc)))
-        got = mon.sig(o[1]) if o[0] == "ok" else None
-    rec.monitor("M-find")
-    if o[0] != "ok":
-        return "exception:" + type(o[1]).__name__, want, mon.describe_outcome(o)
-    if got != want:
-        if sorted(map(repr, got)) == sorted(map(repr, want)):
-            return "order", want, got
-        if [l for l, _ in got] == [l for l, _ in want]:
-            return "value-identity", want, got
-        return "nodes", want, got
-    return None, want, got
 
 
 def run_shard(spec, rec):
@@ -60,7 +38,7 @@ def run_shard(spec, rec):
         via = R.choice(["find", "finditer"])
         try:
             with guard(20):
-                key, want, got = check_case(jp, text, q, doc, rec, via)
+                key, want, got = SD.check_case(jp, text, q, doc, rec, via)
         except CaseTimeout:
             rec.timeout(text)
             continue
@@ -69,47 +47,4 @@ def run_shard(spec, rec):
         if nontrivial:
             rec.sample({"query": text, "document": D.short(doc), "nodes": len(want)})
         if key:
-            report(jp, rec, key, text, q, doc, via)
-
-
-def report(jp, rec, key, text, q, doc, via):
-    # minimise: document first, then the query (canonical spelling) if the failure survives re-rendering
-    def fails_doc(d):
-        k, _, _ = check_case(jp, text, q, d, _Null(), via)
-        return k == key
-    doc2 = shrink.shrink_doc(doc, fails_doc)
-    canon = G.render(q, random.Random(0), canonical=True)
-    q2, text2 = q, text
-    k, _, _ = check_case(jp, canon, q, doc2, _Null(), via)
-    if k == key:
-        def fails_q(c):
-            kk, _, _ = check_case(jp, G.render(c, random.Random(0), canonical=True), c, doc2, _Null(), via)
-            return kk == key
-        q2 = shrink.shrink_query(q, fails_q)
-        text2 = G.render(q2, random.Random(0), canonical=True)
-        doc2 = shrink.shrink_doc(doc2, lambda d: check_case(jp, text2, q2, d, _Null(), via)[0] == key)
-    k, want, got = check_case(jp, text2, q2, doc2, _Null(), via)
-    rec.violation(key, {"query": text2, "ast": jsonable(q2), "document": jsonable(doc2), "via": via,
-                        "expected_locations": mon.locs_only(want), "observed": mon.locs_only(got) if isinstance(got, list) else got,
-                        "original_query": text})
-
-
-class _Null:
-    def monitor(self, *a):
-        pass
-
-
-def replay(case, rec):
-    import jsonpath_rfc9535 as jp
-    q = _tuplify(case["ast"])
-    key, want, got = check_case(jp, case["query"], q, case["document"], rec, case.get("via", "find"))
-    rec.case(case["query"], True)
-    rec.case(case["query"] + "#", True)
-    if key:
-        rec.violation(key, case)
-
-
-def _tuplify(x):
-    if isinstance(x, list):
-        return tuple(_tuplify(y) for y in x)
-    return x
+            SD.report(jp, rec, key, text, q, doc, via)
